@@ -18,8 +18,9 @@ static void init(void) {
                     "applied twice restore the seed bit for bit. non-trivial = an application whose result equalled the model; distinct = distinct (seed, password, mask)");
 }
 
+static const uint8_t* g_cur_secret; static const char* g_cur_pw;
 static void boundary_mask(pv_rng* r, uint8_t mk[32]) {
-    uint32_t k = pv_randn(r, 9);
+    uint32_t k = pv_randn(r, 13);
     memset(mk, 0, 32);
     switch (k) {
     case 0: break;
@@ -29,6 +30,11 @@ static void boundary_mask(pv_rng* r, uint8_t mk[32]) {
     case 4: mk[pv_randn(r, 19)] = (uint8_t)(1u << pv_randn(r, 8)); break;
     case 5: mk[18] = (uint8_t)(0x40u << pv_randn(r, 2)); break;
     case 6: memset(mk + 19, 0xff, 13); break;                 /* only bytes that must be ignored */
+    /* KDF outputs that echo one of the inputs: any 32 bytes are a legitimate mask, including these */
+    case 9: pv_randbytes(r, mk, 32); memcpy(mk, SALT, 16); break;                                         /* starts with the salt */
+    case 10: pv_randbytes(r, mk, 32); if (g_cur_secret) memcpy(mk, g_cur_secret, 19); break;              /* equals the secret: the result is the all-zero secret */
+    case 11: pv_randbytes(r, mk, 32); if (g_cur_pw) { size_t n = strlen(g_cur_pw); memcpy(mk, g_cur_pw, n < 32 ? n : 32); } break;
+    case 12: for (int i = 0; i < 32; ++i) mk[i] = SALT[i % 16]; break;
     default: pv_randbytes(r, mk, 32); break;
     }
 }
@@ -96,11 +102,13 @@ static bool apply(polyseed_data* s, pv_mseed* m, const char* pw, const char* pwc
 static uint64_t n_crypt(void) { return pv_scaled(25000, 600000); }
 static void run_crypt(uint64_t idx, pv_rng* rng) {
     g_rng = rng;
+    g_cur_secret = NULL; g_cur_pw = NULL;
     pv_mseed m0; pv_gen_mseed(rng, 7, true, &m0);
     polyseed_data* s = pv_seed_from_model(&m0);
     if (!s) { pv_violation("C12/load-failed", "%s", pv_mseed_str(&m0)); return; }
     pv_mseed m = m0;
     const char* cls; char* pw = pv_gen_password(rng, &cls);
+    g_cur_secret = m0.secret; g_cur_pw = pw;
     char* nfpw = pv_nfkd_alloc(pw);
     if (strlen(nfpw) >= POLYSEED_STR_SIZE) { free(nfpw); free(pw); pv_api_free(s); PV_COUNT("skipped.password_longer_than_buffer", 1); return; }
     free(nfpw);
